@@ -63,7 +63,7 @@ func init() {
 		Level:     "model_checking",
 		Technique: "stateless model checking of the real pipeline (controlled scheduler over instrumented code, fake Postgres, simulated node): a chain indexed with batch b0, restart with batch b1/conc, then every interleaving (preemption-bounded, reorg landing at every RPC point) of the task thread(s) with an environment thread applying growth and one or two reorgs; oracle = independent projection of the final canonical chain + frame condition on every commit diff",
 		Rule: "jobs = integration sets {L1 (headers+logs), T1 (blocks), R1 (blocks+receipts), L1+T1 and (thorough) T1+R1 sharing one source client} x n in {4,5} (thorough 6) x index batch b0 in 1..3 x batch b1 in 1..3 x conc in {1,2} x pre-growth {0,1} x fork depth d in 1..3 x replacement length r in {d-1,d,d+1,d+2} x content {same, log removed, added, moved} x post-growth {0,1} x optional second reorg at fork-1/fork/fork+1 (equal or longer); thorough = the product with content/growth flags rotating over it, quick = a hand-picked covering subset (see c03Jobs); " +
-			"per job every schedule of task thread(s) and the environment thread with <= 1 deviation (thorough: 2 on the single-integration jobs with index batch 1 and n=5), free switches at step boundaries and between environment operations, environment switches otherwise only at RPC points; both partition orders when conc=2 and index batch 1. An execution is non-trivial when the code under test deleted at least one row or cursor (a reorg was unwound) or the oracle rejected it; distinct = distinct (job, choice sequence).",
+			"per job every schedule of task thread(s) and the environment thread with <= 1 deviation (thorough: 2 on the single-integration jobs with index batch 1), free switches at step boundaries and between environment operations, environment switches otherwise only at RPC points; both partition orders when conc=2 and index batch 1. An execution is non-trivial when the code under test deleted at least one row or cursor (a reorg was unwound) or the oracle rejected it; distinct = distinct (job, choice sequence).",
 		Assumptions: []string{
 			"fake Postgres (h/simpg) interprets the SQL shovel sends; simulated node (h/simeth) answers like a well-behaved geth that switches chains atomically between two requests",
 			"'the source settles' = the environment thread has applied its last chain change; afterwards each task is stepped until it reports 'no new blocks' (number of integrations + 1) times in a row (the head cache may serve that many stale answers), horizon 4n+8 steps",
@@ -125,6 +125,11 @@ func c03Jobs(thorough bool) []c03Job {
 							for _, d := range ds {
 								for r := d - 1; r <= d+2; r++ {
 									h := n + b0*3 + b1*5 + conc*7 + d*11 + r*13 + len(ig)
+									if strings.Contains(ig, "+") {
+										// several tasks: at most two environment operations (growth before or after the reorg)
+										add(c03Job{Igs: ig, N: n, B0: b0, B1: b1, Conc: conc, Pre: h % 2, D: d, R: r, Var: vars[h%4], Post: 1 - h%2})
+										continue
+									}
 									add(c03Job{Igs: ig, N: n, B0: b0, B1: b1, Conc: conc, Pre: h % 2, D: d, R: r, Var: vars[h%4], Post: 1 - (h/2)%4/3})
 									if r >= d {
 										add(c03Job{Igs: ig, N: n, B0: b0, B1: b1, Conc: conc, Pre: (h + 1) % 2, D: d, R: r, Var: vars[(h+2)%4], Post: 1})
@@ -142,9 +147,9 @@ func c03Jobs(thorough bool) []c03Job {
 		grid("R1", []int{5}, []int{1, 2, 3}, []int{1, 2, 3}, []int{1, 2}, []int{1, 2, 3})
 		grid("L1+T1", []int{4}, []int{1, 2, 3}, []int{1, 2}, []int{1}, []int{1, 2})
 		grid("T1+R1", []int{4}, []int{1, 2}, []int{1, 2}, []int{1}, []int{1, 2})
-		// two deviations on the single-integration jobs with index batch 1 and n=5
+		// two deviations on the single-integration jobs with index batch 1
 		for i := range jobs {
-			if jobs[i].B0 == 1 && jobs[i].N == 5 && !strings.Contains(jobs[i].Igs, "+") {
+			if jobs[i].B0 == 1 && !strings.Contains(jobs[i].Igs, "+") {
 				jobs[i].Deep = true
 			}
 		}
@@ -155,7 +160,11 @@ func c03Jobs(thorough bool) []c03Job {
 					for _, d := range []int{1, 2} {
 						for _, off := range []int{-1, 0, 1} {
 							for _, extra := range []int{0, 1} {
-								add(c03Job{Igs: ig, N: 5 - len(ig)/4, B0: b0, B1: b1, Conc: 1, Pre: (b0 + d) % 2, D: d, R: d + 1, Var: "same", Post: 1, Sec: &c03Second{Off: off, Extra: extra}, Deep: b0 == 1 && len(ig) == 2})
+								if len(ig) > 2 { // several tasks: the two reorgs are the only environment operations
+									add(c03Job{Igs: ig, N: 4, B0: b0, B1: b1, Conc: 1, D: d, R: d + 1, Var: "same", Sec: &c03Second{Off: off, Extra: 1}})
+									continue
+								}
+								add(c03Job{Igs: ig, N: 5, B0: b0, B1: b1, Conc: 1, Pre: (b0 + d) % 2, D: d, R: d + 1, Var: "same", Post: 1, Sec: &c03Second{Off: off, Extra: extra}, Deep: b0 == 1})
 							}
 						}
 					}
@@ -188,29 +197,31 @@ func c03Jobs(thorough bool) []c03Job {
 		add(c03Job{Igs: "L1", N: 4, B0: 1, B1: 1, Conc: 1, Pre: 0, D: 2, R: 1 + i%3, Var: v, Post: 0})
 		add(c03Job{Igs: "T1", N: 4, B0: 1, B1: 2, Conc: 1, Pre: i % 2, D: 1 + i%2, R: i, Var: v, Post: 0})
 	}
-	// D: index batch > 1 (the orphaned batch starts above the previous recorded position)
-	for _, x := range []struct {
-		ig             string
-		n, b0, b1, d, r int
-	}{
-		{"L1", 4, 2, 1, 1, 2}, {"L1", 4, 2, 2, 2, 3}, {"L1", 5, 2, 1, 1, 1}, {"L1", 5, 2, 3, 3, 4}, {"L1", 4, 3, 1, 1, 2}, {"L1", 5, 3, 2, 2, 2},
-		{"L1", 5, 3, 1, 3, 3}, {"L1", 4, 3, 3, 2, 3}, {"T1", 4, 2, 1, 1, 2}, {"T1", 5, 3, 2, 2, 3}, {"R1", 4, 2, 2, 2, 2}, {"R1", 5, 3, 1, 1, 2},
-	} {
-		h := x.n + x.b0 + x.b1 + x.d + x.r
-		add(c03Job{Igs: x.ig, N: x.n, B0: x.b0, B1: x.b1, Conc: 1, Pre: h % 2, D: x.d, R: x.r, Var: vars[h%4], Post: 1})
+	// D: index batch > 1 (the orphaned batch starts above the previous recorded position): L1 every (d, r), T1/R1 three
+	for b0 := 2; b0 <= 3; b0++ {
+		for d := 1; d <= 3; d++ {
+			for r := d - 1; r <= d+2; r++ {
+				h := b0*7 + d*3 + r*5
+				add(c03Job{Igs: "L1", N: 4 + h%2, B0: b0, B1: 1 + h%3, Conc: 1, Pre: h % 2, D: d, R: r, Var: vars[h%4], Post: 1})
+			}
+		}
+		for i, dr := range [][2]int{{1, 2}, {2, 3}, {3, 2}} {
+			add(c03Job{Igs: "T1", N: 5, B0: b0, B1: 1 + (i+b0)%3, Conc: 1, Pre: i % 2, D: dr[0], R: dr[1], Var: vars[(i+b0)%4], Post: 1})
+			add(c03Job{Igs: "R1", N: 4 + i%2, B0: b0, B1: 1 + (i+b0+1)%3, Conc: 1, Pre: (i + 1) % 2, D: dr[0], R: dr[1], Var: vars[(i+b0+2)%4], Post: 1})
+		}
 	}
 	add(c03Job{Igs: "L1", N: 4, B0: 2, B1: 2, Conc: 2, Pre: 1, D: 1, R: 2, Var: "same", Post: 1})
-	// E: two integrations with different plans on one source client
-	for i, x := range [][4]int{{1, 1, 1, 2}, {1, 2, 1, 2}, {1, 1, 2, 3}, {1, 2, 2, 1}, {2, 1, 1, 2}, {3, 2, 2, 3}} {
-		add(c03Job{Igs: "L1+T1", N: 4, B0: x[0], B1: x[1], Conc: 1, Pre: 1 - i%2*0, D: x[2], R: x[3], Var: vars[i%4], Post: i % 2})
+	// E: two integrations with different plans on one source client (at most two environment operations)
+	for i, x := range [][6]int{{1, 1, 1, 2, 1, 0}, {1, 2, 1, 2, 0, 1}, {1, 1, 2, 3, 1, 0}, {1, 2, 2, 1, 0, 1}, {2, 1, 1, 2, 1, 0}, {3, 2, 2, 3, 0, 1}} {
+		add(c03Job{Igs: "L1+T1", N: 4, B0: x[0], B1: x[1], Conc: 1, Pre: x[4], D: x[2], R: x[3], Var: vars[i%4], Post: x[5]})
 	}
-	add(c03Job{Igs: "T1+R1", N: 4, B0: 1, B1: 1, Conc: 1, Pre: 1, D: 1, R: 2, Var: "same", Post: 1})
+	add(c03Job{Igs: "T1+R1", N: 4, B0: 1, B1: 1, Conc: 1, Pre: 1, D: 1, R: 2, Var: "same", Post: 0})
 	// F: repeated / nested reorgs
 	for i, off := range []int{-1, 0, 1} {
 		add(c03Job{Igs: "L1", N: 4, B0: 1, B1: 1, Conc: 1, Pre: i % 2, D: 1, R: 2, Var: "same", Post: 1, Sec: &c03Second{Off: off, Extra: 1}})
 		add(c03Job{Igs: "T1", N: 4, B0: 1, B1: 2, Conc: 1, Pre: 1 - i%2, D: 2, R: 3, Var: "same", Post: 1, Sec: &c03Second{Off: off, Extra: i % 2}})
 	}
-	add(c03Job{Igs: "L1+T1", N: 4, B0: 1, B1: 1, Conc: 1, Pre: 1, D: 1, R: 2, Var: "same", Post: 1, Sec: &c03Second{Off: 0, Extra: 1}})
+	add(c03Job{Igs: "L1+T1", N: 4, B0: 1, B1: 1, Conc: 1, Pre: 0, D: 1, R: 2, Var: "same", Post: 0, Sec: &c03Second{Off: 0, Extra: 1}})
 	return jobs
 }
 
@@ -506,7 +517,13 @@ func c03Exec(j c03Job, p *c03Prep, ch vrt.Chooser, states *vrt.StateSet, trace b
 					if nIG > 1 && envDone {
 						return
 					}
-					vrt.Boundary("step")
+					if ti == 0 {
+						vrt.Boundary("step")
+					} else {
+						// several tasks: only the first task's step boundaries are free switch points; the others'
+						// are ordinary scheduling points (their steps interleave through waits, thread ends and preemptions)
+						vrt.Yield("step")
+					}
 				}
 				if w.V.Closing() {
 					return
@@ -566,7 +583,7 @@ func c03Exec(j c03Job, p *c03Prep, ch vrt.Chooser, states *vrt.StateSet, trace b
 			// reduction (several tasks): a task thread is switched to preemptively only while the running thread is
 			// at an RPC exchange (the shared source client) or at a step boundary; the SQL statements of the two
 			// integrations touch different tables and positions stamped with different integration names
-			th.OnlyAt = func(l string) bool { return strings.HasPrefix(l, "rpc:") || strings.HasPrefix(l, "boundary:") }
+			th.OnlyAt = func(l string) bool { return strings.HasPrefix(l, "rpc:") || strings.HasPrefix(l, "boundary:") || l == "step" }
 			threads = append(threads, th)
 		}
 		env := w.V.GoNamed("env", func() {
@@ -791,6 +808,7 @@ func c03Bounds(thorough bool, j c03Job) explore.Bounds {
 
 func c03Run(c *fw.Ctx) {
 	jobs := c03Jobs(c.Thorough())
+	c.Bound("jobs_in_tier", len(jobs))
 	if n, _ := strconv.Atoi(os.Getenv("C03_MAXJOBS")); n > 0 && n < len(jobs) {
 		stride := len(jobs) / n
 		var sel []c03Job
